@@ -13,18 +13,20 @@ def queries(tier):
     quick = tier == 'quick'
     N = 6 if quick else 8          # observer harnesses
     NF = 4 if quick else 5         # FixedStream harnesses with a symbolic output index / reference decoders
-    NI = 2 if quick else 3         # direct escape(escape(s)) (second input is 6*L units)
+    NI = 1 if quick else 2         # direct escape(escape(s)) (second input is 6*L units)
+    NX = int(os.environ.get('C03_NX', 8 if quick else 12))   # fixed-point lemma: words of the output language of NX units
     be = os.environ.get('C03_BACKEND', 'sat')
     qs = []
     for ch in WIDTHS:
-        for L in range(0, N + 1):
+        for L in range(0, max(N, NX) + 1):
             b = {'IsEqual': 6, 'Write': max(L + 1, 7), 'EscapeHTMLSpecialChars': L + 1, 'vf_buf.*': L + 1, 'dec_in': L + 1, 'dec_out': 6 * L + 1}
             for e in ('h_lang', 'h_dec', 'h_len', 'h_fix'):
+                if L > (NX if e == 'h_fix' else N): continue
                 qs.append(Query('%s/%s/L%d' % (e[2:], ch, L), H, e, {'L': L, 'CHAR': ch}, bounds=b, timeout=300, mem_gb=8, backend=be))
-            if L <= NF:
+            if L <= NF and (ch == 'char' or not quick):
                 for e in ('h_safe', 'h_decode'):
                     qs.append(Query('%s/%s/L%d' % (e[2:], ch, L), H, e, {'L': L, 'CHAR': ch}, bounds=b, timeout=600, mem_gb=8, backend=be))
-            if L <= NI:
+            if L <= NI and (ch == 'char' or not quick):
                 # first escaper: FixedStream::Write (fixed_stream.hpp) and its own main loop; second escaper (instantiated on the
                 # harness-local CmpStream, reached through esc2): slices and main loop run over the 6*L units of the first output
                 bi = {'IsEqual': 6, 'fixed_stream.hpp:Write': max(L + 1, 7), 'C03_escape_html.cpp:Write': max(6 * L + 1, 7),
